@@ -676,7 +676,8 @@ Lemma obs_eqb_refl o : obs_eqb o o = true.
 Proof.
   unfold obs_eqb. rewrite ms_eqb_refl by exact effect_eqb_refl.
   rewrite list_eqb_refl by (intros; apply ms_eqb_refl, peer_eqb_refl).
-  rewrite list_eqb_refl by (intros []; reflexivity). reflexivity.
+  rewrite list_eqb_refl by (intros []; reflexivity).
+  rewrite list_eqb_refl by (intros; apply ms_eqb_refl, N.eqb_refl). reflexivity.
 Qed.
 
 (* the model agrees with itself: a case whose observation is the model's own is no mismatch *)
@@ -754,6 +755,12 @@ Proof.
   - intros q Hq. rewrite (Hr q Hq), Z.eqb_refl. cbn. apply amem_In, in_map, Hq.
   - intros a Ha. apply amem_In, Ha.
 Qed.
+Lemma set_addrs_self l : NoDup l -> set_addrs_ok l l = true.
+Proof.
+  intros Hn. unfold set_addrs_ok. rewrite nodup_addrs_NoDup by exact Hn. rewrite andb_true_r.
+  assert (H : forallb (fun a => amem a l) l = true) by (apply forallb_forall; intros a Ha; apply amem_In, Ha).
+  rewrite H. reflexivity.
+Qed.
 Lemma connected_agrees s A a : R s A -> is_connected a s = abs_connected a A.
 Proof. intros [H1 [H2 _]]. unfold is_connected, abs_connected. rewrite H1, H2, !amem_keys. reflexivity. Qed.
 
@@ -766,7 +773,10 @@ Proof.
   cbn [is_nil andb]. rewrite H1, H2, (set_view_self _ _ HP), (set_view_self _ _ HB). cbn [andb].
   assert (E : map (fun a => is_connected a s) pr = map (fun a => abs_connected a A) pr).
   { apply map_ext. intros a. apply connected_agrees. repeat split; auto. }
-  rewrite E. apply list_eqb_refl. intros []; reflexivity.
+  rewrite E, list_eqb_refl by (intros []; reflexivity).
+  unfold api_view. cbn [o_api andb].
+  change (get_peers ROLE_PROVIDER s) with (providers s). change (get_peers ROLE_BIDDER s) with (bidders s).
+  rewrite (set_addrs_self _ (proj2 HP)), (set_addrs_self _ (proj2 HB)). reflexivity.
 Qed.
 
 (* ---------- announce clauses ---------- *)
@@ -919,6 +929,9 @@ Lemma c15_wiring_topology : map (firstn 1) c15_node_topology_args = [[bos "p2pSv
 Proof. reflexivity. Qed.
 Lemma c15_wiring_discovery : map (firstn 2) c15_node_discovery_args = [[bos "topo"; bos "p2pSvc"]].
 Proof. reflexivity. Qed.
+(* debugapi.RegisterAPI(srv, topo, p2pSvc, ...) : GET /topology reads the same Topology *)
+Lemma c15_wiring_debugapi : map (firstn 3) c15_node_debugapi_args = [[bos "srv"; bos "topo"; bos "p2pSvc"]].
+Proof. reflexivity. Qed.
 
 (* ================= non-vacuity ================= *)
 Definition exP1 := mkPeer 1 ROLE_PROVIDER.
@@ -959,14 +972,18 @@ Proof. apply inflight_origin. left; reflexivity. Qed.
    record, a bidder's record, or a connected address is dialled, is flagged *)
 Example ex_checker_rejects :
   case_violations (mkCase 0 [] [] [Connected exB1 exLk []; Connected exP1 exLk []]
-     [mkObs [] [[]; []; [exB1]; []] [];
+     [mkObs [] [[]; []; [exB1]; []] [] [[]; [3]];
       mkObs [Announce exP1 [(1, bos "u1"); (3, bos "u3")]; Wire exP1 [(addr_bytes 1, bos "u1"); (addr_bytes 3, bos "u3")];
-             Announce exB1 [(1, bos "u1")]; Wire exB1 [(addr_bytes 1, bos "u1")]] [[]; [exP1]; [exB1]; []] []])
+             Announce exB1 [(1, bos "u1")]; Wire exB1 [(addr_bytes 1, bos "u1")]] [[]; [exP1]; [exB1]; []] [] [[1]; [3]]])
   = ["announce:self"; "announce:bidder"]%string
   /\ case_violations (mkCase 0 [] [] [Connected exP1 exLk []; Gossip exB1 true [(addr_bytes 1, bos "u1")]]
-     [mkObs [] [[]; [exP1]; []; []] []; mkObs [Dial (bos "u1")] [[]; [exP1]; []; []] []])
+     [mkObs [] [[]; [exP1]; []; []] [] [[1]; []]; mkObs [Dial (bos "u1")] [[]; [exP1]; []; []] [] [[1]; []]])
   = ["gossip:dialled-known"]%string
   /\ case_violations (mkCase 0 [] [] [Connected exP1 exLk []; Disconnected exP1]
-     [mkObs [] [[]; [exP1]; []; []] []; mkObs [] [[]; [exP1]; []; []] []])
+     [mkObs [] [[]; [exP1]; []; []] [] [[1]; []]; mkObs [] [[]; [exP1]; []; []] [] [[1]; []]])
+  = ["view"]%string
+  /\ (* the debug API keeps reporting a provider after its disconnect although GetPeers is right *)
+     case_violations (mkCase 0 [] [] [Connected exP1 exLk []; Disconnected exP1]
+     [mkObs [] [[]; [exP1]; []; []] [] [[1]; []]; mkObs [] [[]; []; []; []] [] [[1]; []]])
   = ["view"]%string.
 Proof. repeat split; reflexivity. Qed.
